@@ -12,8 +12,8 @@ PROPS["C06"] = dict(
     explanation=MIX)
 PROPS["C12"] = dict(
     level="other", claimed=True, verus=True,
-    level_text="Verus (unit serdev, bodies cut out of /repo, abstract reader / writer / element type): ByteReader::read_many, ByteWriter::write_many and the Vec<T> (de)serializers for EVERY length and element type - read_many returns exactly `count` successive element decodings and consumes exactly their bytes, write_into appends the length prefix and the element encodings in order, and decoding what write_into appended returns the same vector with exactly the following bytes left (relative to the element-level and vint64 round trips). Kani: decode(encode(x)) == x, exact consumption, and 'constructor accepts => reader accepts' as Kani contracts on the real (de)serializers: complete for the size encoding, fixed-width integers, field elements, ProofOptions, FieldExtension and TraceInfo headers; bounded (stated per obligation) for containers, Context, OOD frame, tables and FRI proof parts. Whole-Proof round trips (bytes -> Proof -> bytes and equality of the decoded value) on every proof of the two native pipeline stand-ins; ReadAdapter as byte source through C13's differential stand-in.",
-    level_note='Bounded stand-ins are listed under coverage.native_bounded_standins and are not proofs. Not decided: maps / sets / strings / options / arrays / tuples for all sizes (bounded stand-in serde_native); whole-Proof round trip for all proofs. Trusted: Kani/CBMC, format stub.',
+    level_text="Verus (unit serdev, bodies cut out of /repo, abstract reader / writer / element type): ByteReader::read_many, ByteWriter::write_many and the Vec<T> (de)serializers for EVERY length and element type - read_many returns exactly `count` successive element decodings and consumes exactly their bytes, write_into appends the length prefix and the element encodings in order, and decoding what write_into appended returns the same vector with exactly the following bytes left (relative to the element-level and vint64 round trips); Verus (unit proofserdev, bodies cut out of /repo): the whole-Proof writer and reader compose the component codecs in the same order, and every proof whose number of trace-query sets equals its context's segment count round-trips exactly (relative to the component round trips). Kani: decode(encode(x)) == x, exact consumption, and 'constructor accepts => reader accepts' as Kani contracts on the real (de)serializers: complete for the size encoding, fixed-width integers, field elements, ProofOptions, FieldExtension and TraceInfo headers; bounded (stated per obligation) for containers, Context, OOD frame, tables and FRI proof parts. Whole-Proof round trips (bytes -> Proof -> bytes and equality of the decoded value) on every proof of the two native pipeline stand-ins; ReadAdapter as byte source through C13's differential stand-in.",
+    level_note='Bounded stand-ins are listed under coverage.native_bounded_standins and are not proofs. Not decided: maps / sets / strings / options / arrays / tuples for all sizes (bounded stand-in serde_native); the component round trips of Queries / FriProof / Context for all sizes (bounded Kani, stand-ins). Trusted: Kani/CBMC, format stub.',
     explanation=MIX)
 PROPS["C18"] = dict(
     level="other", claimed=True,
